@@ -1434,3 +1434,17 @@ Example order_check_example :
   (exists r, transform_attrs [] [] true true None own = Ok r) /\
   (exists r, transform_attrs [] [] true false (Some (@rev attribute)) own = Ok r).
 Proof. cbv zeta. repeat split; eexists; reflexivity. Qed.
+
+(** The side condition of [legacy_linear_agrees] (decorated classes of the chain hold
+    [inherited ++ own] unchanged, i.e. no class-level kw_only and no transformer) is
+    necessary: [A: x]; [B(A), kw_only=True: y]; [C(B)] — the legacy collection copies
+    B's keyword-only copy of x, the MRO-correct one goes back to A's definition. *)
+Definition kw_chain : table :=
+  snd (run_classes [] []
+    [ Cl 0 [] [St "x" None (BVField (CA 1 (fld "A.x")))] (Some (De false false None AutoFalse None));
+      Cl 1 [0] [St "y" None (BVField (CA 2 (fld "B.y")))] (Some (De false true None AutoFalse None)) ]).
+
+Example legacy_chain_needs_side_condition :
+  map a_kw_only (collect_base_attrs_broken kw_chain [1; 0] []) = [true; true] /\
+  map a_kw_only (collect_base_attrs kw_chain [1; 0] []) = [false; true].
+Proof. split; reflexivity. Qed.
